@@ -63,6 +63,7 @@ var c04Atoms = map[string]string{
 	"pin.Reference != nil":                         "!GRefNil",
 	"pin.ExpireAt.IsZero()":                        "GExpireZero",
 	"pin.ExpireAt.Before(time.Now())":              "GExpireBefore",
+	"pin.ExpireAt.After(time.Now())":               "GExpireAfter",
 	"opts.Name == \"\"":                            "GOptNameEmpty",
 	"opts.Name != \"\"":                            "!GOptNameEmpty",
 	"opts.ExpireAt.IsZero()":                       "GOptExpireZero",
